@@ -140,6 +140,7 @@ const (
 	SubjRecvN              // *rn = … / *rn++ : only when rn is the pointer receiver of a method of N
 	SubjT2                 // non-mutable field of T2 / instantiation of T2: never exempt in any generated encloser
 	SubjT2Mut              // field F of T2, @mutable exactly when T's M is
+	SubjOwnT               // u's OWN type T (@immutable, @constructor NewT, Alt) that merely shares the name of d.T
 )
 
 // Site is one candidate statement, alone on its line.
@@ -151,6 +152,7 @@ type Site struct {
 	Core  bool     // also placed under every wrapper
 	NeedPtrR bool  // needs r to be a pointer (omitted in value-receiver methods of T)
 	NotInMethT bool // omitted in methods of T (would shadow the receiver; not judged)
+	OnlyInU    bool // rendered only in the importing package (refers to u's own same-named type T)
 	PkgLevel string // for EPkgVarDirect: the declaration form (CTOR family only)
 }
 
@@ -421,6 +423,13 @@ func Render(s *Spec) *Rendered {
 		w.add("")
 		w.add("func use(...any) {}")
 		w.add("")
+		if s.InU {
+			w.add("// T is this package's own type; it merely shares its name (and constructor names) with d.T.")
+			w.add("// @immutable")
+			w.add("// @constructor NewT, Alt")
+			w.add("type T struct{ F int }")
+			w.add("")
+		}
 		switch s.Spell {
 		case SpLocalAlias:
 			w.add("type AT = " + r.q + "T")
@@ -653,6 +662,9 @@ func (r *renderer) section(w *lineWriter, file string, bi int, wr Wrapper, ptrR,
 			continue
 		}
 		if st.NotInMethT && inMethT {
+			continue
+		}
+		if st.OnlyInU && !r.spec.InU {
 			continue
 		}
 		r.pre(w, ind)
